@@ -361,6 +361,10 @@ def gen_lab(rng, n, pattern):
         return [None] * n
     if pattern == "single":
         return [3] * n
+    if pattern == "distinct":
+        labs = list(range(n))              # every element alone in its group (flox has shortcuts for this)
+        rng.shuffle(labs)
+        return labs
     labs = ro.gen_labels(rng, n, rng.randint(1, 4), 0.25 if pattern == "withnan" else 0.0,
                          pattern if pattern in ("sorted", "periodic", "runs") else "random")
     return labs
@@ -443,7 +447,7 @@ def make_scan(rng, func, dtype, by_dask, ndim, stream="scan") -> LCase:
     shape = [n] if ndim == 1 else [rng.randint(1, 3), n]
     by_ndim = 1 if ndim == 1 else rng.choice([1, 2])
     nlab = int(np.prod(shape[-by_ndim:]))
-    labels = gen_lab(rng, nlab, rng.choice(["random", "sorted", "runs", "withnan", "single", "allmissing"]))
+    labels = gen_lab(rng, nlab, rng.choice(["random", "sorted", "runs", "withnan", "single", "allmissing", "distinct", "distinct"]))
     return LCase(api="scan", func=func, dtype=dtype, shape=shape, chunks=gen_chunks_nd(rng, shape), by_ndim=by_ndim,
                  by_dask=by_dask, labels=labels, stream=stream)
 
